@@ -278,7 +278,7 @@ func runC20(c *fw.Ctx) {
 		c20Check(c, &errDoc{Text: p.text, Kind: "pinned", Token: p.tok, Lines: lines, Injected: true}, p.root, 0)
 	})
 	dir := filepath.Join(c.WorkDir, fmt.Sprintf("c20files.%d", c.Shard))
-	c.Cases("docs", c.N(3000, 200000), false, func(i int, r *rng.R) {
+	c.Cases("docs", c.N(3000, 2000000), false, func(i int, r *rng.R) {
 		root := spec.List
 		if r.Bool() {
 			root = spec.Obj
